@@ -1,6 +1,6 @@
 #!/bin/bash
 # seedtool.sh confirm <worktree>            : demo fails with the change, passes without; suite passes with the change
-# seedtool.sh try <patch.diff> <prop> [...] : apply the patch to /repo, run the quick checks, revert
+# seedtool.sh try <patch.diff> <prop> [...] : apply the patch to a scratch worktree, run the quick checks against it
 export GOFLAGS=-mod=mod GOPROXY=off GOSUMDB=off GOTOOLCHAIN=local
 set -u
 case "$1" in
@@ -19,12 +19,28 @@ confirm)
   echo "demo_with_change=$with (want !=0) demo_without=$without (want 0) failing_packages=[$failing] (want only .../info)"
   ;;
 try)
+  # builds the checks against a scratch worktree of /repo with the patch applied (VERIF_REPO), so /repo itself
+  # is never touched and checks running against it are not disturbed
   patch=$2; shift 2
-  git -C /repo status --short | grep -q . && { echo "/repo not clean"; exit 2; }
-  git -C /repo apply $patch || { echo "PATCH DOES NOT APPLY TO /repo"; exit 2; }
+  wt=/tmp/seedrepo.$$
+  git -C /repo worktree add -q --detach $wt HEAD || exit 2
+  git -C $wt apply $patch || { echo "PATCH DOES NOT APPLY"; git -C /repo worktree remove --force $wt; exit 2; }
   for p in "$@"; do
-    (cd /verif && ./check $p quick 2>&1 | grep -E "^VIOLATION|^property=|^INCONCLUSIVE|BUILD-FAILED" | head -5)
+    (cd /verif && VERIF_REPO=$wt BUILD_TAG=seed ./check $p quick 2>&1 | grep -E "^VIOLATION|^property=|^INCONCLUSIVE|BUILD-FAILED" | sort -u -k1,1 | head -6)
   done
-  git -C /repo checkout -- . ; git -C /repo status --short
+  git -C /repo worktree remove --force $wt; git -C /repo worktree prune
+  ;;
+save)
+  # seedtool.sh save <worktree> <name> <checks_run text>   (after confirm + try)
+  wt=$2; name=$3; txt=$4; d=/verif/seeded/$name; mkdir -p $d
+  cp $wt/_out/patch.diff $d/patch.diff; cp $wt/_out/demo.sh $d/demo.sh
+  for f in $wt/_out/*_test.go; do cp $f $d/$(basename $f).txt; done
+  python3 - "$wt/_out/meta.json" "$d/meta.json" "$txt" <<'PY'
+import json,sys
+m=json.load(open(sys.argv[1]))
+m["confirmed"]={"demo_fails_with_change":True,"demo_passes_without":True,"suite_passes_with_change_except_network_tests_in_info":True,"by":"seedtool.sh confirm (run by the main session in the agent's scratch worktree)"}
+m["checks_run"]=sys.argv[3]
+json.dump(m,open(sys.argv[2],"w"),indent=1)
+PY
   ;;
 esac
